@@ -10,12 +10,16 @@ Open Scope N_scope.
     obtained); [p_created] a connection was opened for this query in this pass;
     [p_ok] the exchange returned a reply; [p_written] the query's bytes were
     handed to a connection. *)
-Record opass := mkOP { p_acq : bool; p_created : bool; p_ok : bool; p_written : bool }.
+Record opass := mkOP { p_acq : bool; p_created : bool; p_ok : bool; p_written : bool;
+  p_dead : bool (* the query was written to a connection the client itself had already closed *) }.
 
 Inductive case :=
 | CRetry (pipeline : bool) (passes : list opass) (ctx_cancelled t_closed : bool)
          (final : N)   (* 0 reply, 1 exchange error, 2 no connection obtained, 3 still running *)
-         (conns : N).  (* distinct connections the query was written to *)
+         (conns : N)   (* distinct connections the query was written to *)
+         (stale : N)   (* connections whose server side was gone but that the client had not closed when the query
+                          started, plus those the scenario kills while it runs *)
+         (must : bool). (* scenario guarantee: every fresh connection works, nobody cancels, the transport stays open *)
 
 Definition cfg_of (pipeline : bool) : cfg := if pipeline then pipeline_cfg else reuse_cfg.
 
@@ -34,11 +38,13 @@ Definition final_code (f : final) : N := match f with FOk => 0 | FErr => 1 | FAc
     error may come from the dial wait or from the exchange): both are accepted. *)
 Definition agree (c : case) : bool :=
   match c with
-  | CRetry pl ps cc tc fin conns =>
+  | CRetry pl ps cc tc fin conns _ _ =>
     let '(f, n) := loop (cfg_of pl) 0 (to_passes cc ps) in
     (if final_code f =? 3 then (fin =? 3) && (n =? length ps)%nat
      else (final_code f =? fin) && (n =? length ps)%nat)
     && (conns <=? N.of_nat (length (filter p_written ps)))
+    (* the pool never hands out a connection the client has already closed *)
+    && forallb (fun p => negb (p_dead p)) ps
   end.
 
 Definition n_exch (ps : list opass) : N := N.of_nat (length (filter p_acq ps)).
@@ -46,7 +52,7 @@ Definition n_exch (ps : list opass) : N := N.of_nat (length (filter p_acq ps)).
 (** The property, on the observations alone. *)
 Definition spec (c : case) : bool :=
   match c with
-  | CRetry pl ps cc tc fin conns =>
+  | CRetry pl ps cc tc fin conns stale must =>
     let bound := allowed (cfg_of pl) + 1 in
     (n_exch ps <=? 4) && (conns <=? 4)
     && (if fin =? 1 then
@@ -57,9 +63,14 @@ Definition spec (c : case) : bool :=
         else true)
     && (if fin =? 0 then match rev ps with last :: _ => p_ok last | [] => false end else true)
     && forallb (fun p => negb (p_ok p)) (removelast ps)
+    (* transparent retry: with fewer dead connections around than the retry budget and a working fresh
+       connection, the query succeeds *)
+    && (if must && (stale <=? allowed (cfg_of pl)) then fin =? 0 else true)
+    (* a failure must not be built on attempts at connections the client already knew were closed *)
+    && (if fin =? 1 then negb (existsb p_dead ps) else true)
   end.
 
 Definition nontrivial (c : case) : bool :=
   match c with
-  | CRetry _ ps _ _ _ _ => (2 <=? length ps)%nat || existsb (fun p => negb (p_ok p)) ps
+  | CRetry _ ps _ _ _ _ _ _ => (2 <=? length ps)%nat || existsb (fun p => negb (p_ok p)) ps
   end.
